@@ -540,7 +540,7 @@ def run(prop, tier, rep):
         if probs:
             rep.violation(oid, dict(detail="static rule over the decoder sources", replay=dict(problems=probs)), False)
     if prop == "C16" and not os.environ.get("VERIF_ONLY_UNITS"):
-        # PIX pixel positions are not under contract (DESIGN 0.4): a small bounded stand-in runs with every C16 check
+        # PIX pixel positions are under contract (unit tag C16); this small bounded stand-in still runs with every C16 check as a cross-check
         try:
             from vcheck import differential
             differential.run_tool(prop, rep, "pixtopgm", rep.seed, "pixel positions and grey values of PIX are not under contract")
